@@ -353,6 +353,13 @@ func (e *env) busy() []string {
 //go:noinline
 func verifCallTrampoline(f func() string) string { return f() }
 
+// hangCount counts the calls that never returned. Every hang costs a
+// watchdog period, so drivers stop after a few of them (the verdict does
+// not need more).
+var hangCount atomic.Int64
+
+const maxHangs = 3
+
 type callResult struct {
 	outcome string
 	panic   string
@@ -472,6 +479,7 @@ func (e *env) record(obj, call, variant string, f func() string) bool {
 	res, hung := runWatched(f)
 	e.faults.clear()
 	if hung {
+		hangCount.Add(1)
 		e.tr.Emit(common.Ev{"ev": "hang", "obj": obj, "call": call, "variant": variant})
 		return false
 	}
